@@ -85,12 +85,12 @@ CLAIMED = {
    technique="Lean 4 proof (invariant by induction over publish/coin histories) + acceptor-mode correspondence on the real Bolt file",
    design="§8 C10"),
  "C12": dict(
-   text="Theorems: for every payload string and every id/type free of line breaks, the reference W3C parser applied to Event.encode yields exactly one event with the published id, type, retry and LF-normalised data; a stream made of ':' comments and events in any order decodes to exactly the events written. The replacer pairs and format strings of Event.String are regenerated from event.go and checked against the model. Persistent transport: the stored JSON value decodes to exactly the published update (every scalar sequence, every 64-bit retry), and the values of a history scan decode to the stored updates in order. Tie: Event.String vs the Lean encoder on a payload grammar, the harness's own parser vs the Lean parser, and end-to-end POST -> live and replayed streams on both transports.",
+   text="Theorems: for every payload string and every id/type free of line breaks, the reference W3C parser applied to Event.encode yields exactly one event with the published id, type, retry and LF-normalised data; a stream made of ':' comments and events in any order decodes to exactly the events written. The replacer pairs and format strings of Event.String are regenerated from event.go and checked against the model. Persistent transport: the stored JSON value decodes to exactly the published update (every scalar sequence, every 64-bit retry), and the values of a history scan decode to the stored updates in order. Tie: Event.String vs the Lean encoder on a payload grammar, the harness's own parser vs the Lean parser, and end-to-end POST -> live and replayed streams on both transports. End to end (post_to_event): for all UTF-8 topics/data/id/type and every 64-bit retry, if the hub accepts the form-encoded request, the update carries exactly the posted fields (Model/Form: url.ParseQuery on bytes, round trip proved), its stored JSON decodes to it, and the written bytes parse to exactly one event with the posted id, type, retry and LF-normalised data.",
    note=TB + "The JSON form stored by the Bolt transport is modelled byte for byte (Model/Json) and its round trip proved (stored_value_roundtrip; family store compares the stored bytes with the model's); form decoding of the POST body is library behaviour (compared end to end, not proved). Ids/types containing line breaks are outside the property (the hub accepts them).",
    technique="Lean 4 proof (round-trip by induction over the payload and over the chunk list) + differential correspondence",
    design="§8 C12"),
  "C02": dict(
-   text="Theorems over the executable model of PublishHandler: a POST is accepted iff it carries a valid publisher token whose mercure.publish is defined and covers every topic ('*' or a matching selector, at any position) or the version-7 mode applies to a non-private update, and the body is well-formed; every refusal is a 4xx with a fixed text; canDispatch is position-independent. The model is run against Hub.ServeHTTP on both transports on generated requests; after every request a '*' watcher, the last event id and the Bolt history are checked for 'no effect'.",
+   text="Theorems over the executable model of PublishHandler: a POST is accepted iff it carries a valid publisher token whose mercure.publish is defined and covers every topic ('*' or a matching selector, at any position) or the version-7 mode applies to a non-private update, and the body is well-formed; every refusal is a 4xx with a fixed text; canDispatch is position-independent. The model is run against Hub.ServeHTTP on both transports on generated requests; after every request a '*' watcher, the last event id and the Bolt history are checked for 'no effect'. The fields the handler reads from the body are those of the Lean model of url.ParseQuery (Model/Form; family form: Go vs model on raw bodies).",
    note=TB + "Token verification is C03's; the selector relation is C11's (matchSpec). A hub built with no publisher key is outside the property's configurations (C19).",
    technique="Lean 4 proof (decision logic, list induction) + differential correspondence through the HTTP handler",
    design="§8 C02"),
@@ -110,7 +110,7 @@ CLAIMED = {
    technique="Lean 4 proof (round-trip by induction; refinement invariant over operation histories) + differential correspondence",
    design="§8 C05"),
  "C11": dict(
-   text="Theorem over an exact executable model of the sharded-LRU selector store: for every lookup history, capacity and shard count (0 = disabled) every answer equals the protocol's relation (cache transparency by a weak-cache invariant; thread-modular form for concurrent evaluation). The key expression and the hit validation are regenerated from topicselector.go on every run and the obligation is re-proved against them; the model is run against the real store on generated and collision-seeking histories.",
+   text="Theorem over an exact executable model of the sharded-LRU selector store: for every lookup history, capacity and shard count (0 = disabled) every answer equals the protocol's relation (cache transparency by a weak-cache invariant; thread-modular form for concurrent evaluation). The key expression and the hit validation are regenerated from topicselector.go on every run and the obligation is re-proved against them; the model is run against the real store on generated and collision-seeking histories. The template library itself is no longer a parameter only: Model/Template is an executable model of uritemplate.New and Template.Regexp().MatchString (family tpl: library vs model), with theorems expansion_matches (every expansion of a level-1 template matches) and lit_var_matches_iff (literal{var} matches exactly the literal followed by unreserved characters, commas and %XX).",
    note=TB + "RFC 6570 semantics (yosida95/uritemplate + Go regexp) enters as the TemplateOracle parameter: partial on that side.",
    technique="Lean 4 proof (invariant + induction over lookup histories) + regenerated-fact obligation + differential correspondence",
    design="§8 C11"),
